@@ -5,9 +5,10 @@ Unknown or malformed lines answer `bad-op` (never a default value).
 import DitModel.Drv.Basic
 import DitModel.Drv.Simplex
 import DitModel.Drv.Info
+import DitModel.Drv.Constr
 open Dit Dit.Drv
 
-def handlers : List (String × (J → Option J)) := basicHandlers ++ simplexHandlers ++ infoHandlers
+def handlers : List (String × (J → Option J)) := basicHandlers ++ simplexHandlers ++ infoHandlers ++ constrHandlers
 
 def answer (line : String) : String :=
   let line := line.trimAscii.toString
